@@ -58,3 +58,26 @@ Proof.
       assert (x <> y) by (intros ->; destruct Hx as [Hx|Hx]; [exact (Hny Hx)|exact (Hused Hx)]).
       destruct (cluster_addr_disjoint s x y G H) as [D|D]; [right; lia|left; lia].
 Qed.
+
+(** * C11, crash points INSIDE operations: the dirty mark a read-write mount has put into the boot sector survives ANY subset of the device
+    writes of ANY history of interface calls, whole or torn to a prefix, in any combination — every one of them lies at or above byte 512 *)
+From Coq Require Import Relations.
+From PyFatV Require Import Proofs.Session Proofs.HdrState.
+Theorem mark_survives_any_crash s s1 s2 :
+  dev_ok (s_dev s) -> hdr_wf (s_h s) -> 0 <= BS_Reserved1 (s_h s) < 256 -> 512 <= s_dsize s ->
+  (ft s = Gen.FAT_TYPE_FAT32 -> 512 <= BPB_BkBootSec (s_h s) * bps s) ->
+  0 <= fat_start s -> 0 <= BPB_NumFATs (s_h s) -> fat_start s + BPB_NumFATs (s_h s) * fat_bytes s <= s_dsize s ->
+  (forall v, lenZ (pack_fat (ft s) (updZ (s_fat s) 1 v) (s_hi s)) <= fat_bytes s) ->
+  mark_dirty s = Ok s1 -> safe s1 -> clos_refl_trans st wstep s1 s2 ->
+  exists l, s_log s2 = l ++ s_log s1 /\
+    forall l' keep, Forall2 (fun (w' w:Z * list Z) => fst w' = fst w /\ lenZ (snd w') <= lenZ (snd w)) l' l ->
+      flag_set (parse_hdr (dread (apply_some (s_dev s1) l' keep) (s_dsize s1) 0 512)) = true.
+Proof.
+  intros Hd Hwf Hr Hsz Hbk Hfs Hn Hfit Hpl Hm Hs1 Hh.
+  destruct (mark_dirty_on_device s s1 Hd Hwf Hr Hsz Hbk Hfs Hn Hfit Hpl Hm) as (_ & _ & Hflag & Hd1).
+  destruct (history_R _ _ Hs1 Hh) as (_ & _ & _ & _ & l & Hl & Habove & _). exists l. split; [exact Hl|].
+  intros l' keep H2.
+  rewrite (crash_torn_writes (s_dev s1) (s_dsize s1) l l' Hd1); [exact Hflag| |exact H2|lia|].
+  - eapply Forall_impl; [|exact Habove]. intros w Hw. cbv beta in Hw. lia.
+  - eapply Forall_impl; [|exact Habove]. intros w Hw. cbv beta in Hw. left. lia.
+Qed.
